@@ -18,7 +18,8 @@ RULE = (
     "case = pipeline of 1-4 stages, each a generated small scenario (own submission groups, or none -> the "
     "pipeline's submitter params), given as config files or as auto-config commands (a recorded fake that writes the "
     "stage's config), x schedule x optional lost batch (-> stage return code 1) x optional resubmit-jobs of a "
-    "completed stage after the pipeline finished; started with `jade pipeline submit`, driven with the documented "
+    "completed stage after the pipeline finished x optional resubmit-jobs of a completed earlier stage while the next "
+    "stage is in flight; started with `jade pipeline submit`, driven with the documented "
     "try-submit-jobs recovery on the current stage. Oracle: every sbatch / job launch / auto-config invocation of "
     "stage k+1 happens after stage k's is_complete became true; per stage directory the cluster config version never "
     "goes back (created once) and is_complete never clears unless that stage is resubmitted; at every quiescent "
@@ -45,6 +46,10 @@ def pipelines(draw):
         "schedule": draw(gen.schedules(200)),
         "lose": draw(st.one_of(st.none(), st.none(), st.integers(0, 5))),
         "resubmit_stage": draw(st.one_of(st.none(), st.none(), st.integers(1, n))),
+        # resubmit a completed EARLIER stage while the next stage is in flight (a generated number of steps after the
+        # next stage's submission was created)
+        "resubmit_early_stage": draw(st.one_of(st.none(), st.none(), st.fixed_dictionaries({
+            "stage": st.integers(1, max(1, n - 1)), "after": st.integers(0, 60)}))) if n >= 2 else None,
         "pipe_batch_size": draw(st.integers(1, 4)),
     }
 
@@ -109,6 +114,25 @@ def run_case(case):
             return W.SyncResult(0)
 
         w.extra_cmds["autocfg"] = autocfg
+        re_ = case.get("resubmit_early_stage")
+        k_early = re_["stage"] if re_ else None
+        st_early = {}
+        if re_:
+
+            def epred(ww):
+                nxt = H.read_json(os.path.join(stage_out(pout, k_early + 1), "cluster_config.json"))
+                cur = H.read_json(os.path.join(stage_out(pout, k_early), "cluster_config.json"))
+                if not (nxt and cur and cur.get("is_complete") and cur.get("submitter") is None and not nxt.get("is_complete")
+                        and os.path.exists(os.path.join(stage_out(pout, k_early + 1), "submitter_groups.json"))):
+                    return False
+                st_early.setdefault("t0", ww.steps)
+                return ww.steps - st_early["t0"] >= re_["after"]
+
+            def efire(ww):
+                st_early["fired"] = len(ww.log)
+                sim.user_cmd(["resubmit-jobs", stage_out(pout, k_early), "--successful"], name="resubmit_early")
+
+            w.user_events.append(("resubmit-early-stage", epred, efire, True))
         sim.user_cmd(["pipeline", "submit", pfile, "-o", pout], name="login")
         res = {"violations": [], "classes": [f"stages:{n}", "style:" + case["style"]], "nontrivial": False, "sample": None,
                "inconclusive": None, "counters": {}}
@@ -126,6 +150,8 @@ def run_case(case):
             for k in range(1, n + 1):
                 cc = H.read_json(os.path.join(stage_out(pout, k), "cluster_config.json"))
                 if cc is not None and not cc["is_complete"]:
+                    if re_ and "fired" in st_early and k == k_early:
+                        continue  # an earlier stage being rerun by the user's resubmit-jobs is not "the running stage"
                     running = k
             quiescent_obs.append((pj["stage_num"], pj["is_complete"], running,
                                   [s["return_code"] for s in pj["stages"]]))
@@ -144,6 +170,11 @@ def run_case(case):
                 outcome = "complete"
                 break
             cur = stage_out(pout, pj["stage_num"])
+            for k2 in range(1, min(pj["stage_num"], n + 1)):
+                cc2 = H.read_json(os.path.join(stage_out(pout, k2), "cluster_config.json"))
+                if cc2 is not None and not cc2["is_complete"] and not w.live_threads():
+                    cur = stage_out(pout, k2)  # a resubmitted earlier stage needs the documented recovery first
+                    break
             if w.live_threads() or not os.path.exists(os.path.join(cur, "cluster_config.json")):
                 outcome = "stuck:" + ("live" if w.live_threads() else "stage-not-created")
                 break
@@ -153,6 +184,7 @@ def run_case(case):
                 break
             w.note("recovery", n=rounds, stage=pj["stage_num"])
             sim.user_cmd(["try-submit-jobs", cur], name=f"recover{rounds}")
+        w.user_events.clear()  # an early-stage resubmission that did not fire while the pipeline ran is dropped
         if outcome == "budget":
             res["inconclusive"] = "step-budget"
         elif outcome.startswith("stuck"):
@@ -221,6 +253,8 @@ def run_case(case):
                 rj = H.read_json(os.path.join(stage_out(pout, k), "results.json"))
                 want = 1 if (rj is None or rj["missing_jobs"]) else 0
                 got = pj["stages"][k - 1]["return_code"]
+                if re_ and "fired" in st_early and k == k_early:
+                    continue  # rerun by the user: results.json no longer shows what the recorded (first) completion saw
                 if got != want:
                     v.append(C.viol("C15:stage-return-code", f"stage {k}: recorded return code {got}, expected {want} "
                                     f"(missing_jobs={rj['missing_jobs'] if rj else None})"))
@@ -228,7 +262,7 @@ def run_case(case):
                 if rj is not None and sorted([r["name"] for r in rj["results"]] + rj["missing_jobs"]) != names:
                     v.append(C.viol("C15:stage-results", f"stage {k}: results do not cover its jobs"))
             # resubmitting a completed stage must not submit later stages again
-            if case["resubmit_stage"] is not None and not v:
+            if case["resubmit_stage"] is not None and not v and not (re_ and "fired" in st_early):
                 k = case["resubmit_stage"]
                 mark = len(w.log)
                 w.faults[:] = []
@@ -258,6 +292,8 @@ def run_case(case):
                 if pj2["stage_num"] != pj["stage_num"] or pj2["is_complete"] != pj["is_complete"]:
                     v.append(C.viol("C15:pipeline-state-changed-by-stage-resubmission", f"{pj['stage_num']},{pj['is_complete']} -> "
                                     f"{pj2['stage_num']},{pj2['is_complete']}"))
+        if re_ and "fired" in st_early:
+            res["classes"].append("resubmitted_earlier_stage_while_next_in_flight")
         if case["lose"] is not None and any(r["k"] == "sbatch_fail" for r in w.log):
             res["classes"].append("lost_batch")
         res["nontrivial"] = outcome == "complete" and n >= 2 and any(c >= 2 for c in batches_per_stage.values())
